@@ -104,6 +104,8 @@ impl Region {
         }
 
         if dirty_start < dirty_end {
+            #[cfg(anydb_verif)]
+            crate::verif_tap::lock("dirty_bounds", self.0.index + 1, true);
             let mut bounds = self.0.dirty_bounds.lock();
             bounds.0 = bounds.0.min(dirty_start);
             bounds.1 = bounds.1.max(dirty_end);
@@ -463,6 +465,8 @@ impl Region {
 
     #[inline]
     pub(crate) fn restore_dirty_bounds(&self, min: usize, max: usize) {
+        #[cfg(anydb_verif)]
+        crate::verif_tap::lock("dirty_bounds", self.0.index + 1, true);
         let mut bounds = self.0.dirty_bounds.lock();
         bounds.0 = bounds.0.min(min);
         bounds.1 = bounds.1.max(max);
@@ -488,5 +492,12 @@ impl Region {
         };
         let d = if self.0.dirty_bounds.is_locked() { 2 } else { 0 };
         [m, d]
+    }
+
+    /// Verification hook: a probe of this region's lock state (index, [meta, dirty_bounds]) that
+    /// does not keep the region alive (`None` once the region has been freed).
+    pub fn verif_lock_probe(&self) -> Box<dyn Fn() -> Option<(usize, [u8; 2])> + Send + Sync> {
+        let w = Arc::downgrade(&self.0);
+        Box::new(move || w.upgrade().map(|a| (a.index, Region(a).verif_lock_state())))
     }
 }
